@@ -1,7 +1,8 @@
 import BfeVerif.Common.Proto
 import BfeVerif.C16.Model
 /-!
-  C16 driver.  op = `x <envmask> <expr>`; expr over `a`..`z` (atoms), `&` (&&), `|` (||), `!`, `(`, `)`,
+  C16 driver.  op = `x <envmask>[:<missmask>] <expr>` (an atom whose missmask bit is set is a primitive whose
+  attribute is missing on the request: it is false, so its negation is true); expr over `a`..`z` (atoms), `&` (&&), `|` (||), `!`, `(`, `)`,
   and `_ ~ ^` (blank, tab, newline — ignored by the scanner).  Atom `i` has truth value bit i of envmask.
   result = `<s-expression of the AST> <T|F>` or `err`.
 -/
@@ -84,9 +85,12 @@ def depth : PE → Nat
 def run (op impl : String) : Ans :=
   match op.splitOn " " with
   | ["x", m, ex] =>
-    match m.toNat?, tokenize ex.toList with
+    let (ms, miss) : String × Nat := match m.splitOn ":" with
+      | [a, b] => (a, b.toNat?.getD 0)
+      | _ => (m, 0)
+    match ms.toNat?, tokenize ex.toList with
     | some mask, some ts =>
-      let env : Nat → Bool := fun i => (mask >>> i) % 2 == 1
+      let env : Nat → Bool := fun i => (mask >>> i) % 2 == 1 && !((miss >>> i) % 2 == 1)
       let model :=
         match parseTop codeTable ts with
         | none => "err"
@@ -105,7 +109,8 @@ def run (op impl : String) : Ans :=
           | some b =>
             if impl == "err" then "FAIL:rejects-valid"
             else if implVal == some b then "ok"
-            else if mix then "FAIL:and-or-precedence" else "FAIL:precedence-other"
+            else if mix then "FAIL:and-or-precedence"
+            else if miss != 0 && ts.contains .not then "FAIL:negated-missing-attr" else "FAIL:precedence-other"
       let tags :=
         match docTree with
         | none => ["syntax-err"]
@@ -114,6 +119,7 @@ def run (op impl : String) : Ans :=
           (if ts.length ≥ 3 then ["nt"] else []) ++
           (if ts.contains .lp then ["paren"] else []) ++
           (if ts.contains .not then ["not"] else []) ++
+          (if miss != 0 then (if ts.contains .not then ["missing-attr", "not-missing"] else ["missing-attr"]) else []) ++
           ["depth" ++ toString (min (depth pe) 6)]
       { model := model, verdict := verdict, tags := tags }
     | _, _ => { model := "bad-op", verdict := "skip" }
